@@ -25,14 +25,21 @@ Definition cands (w h : Q) (r : radii) : list Q :=
 (* ratio = min([1] + [...]) *)
 Definition ratio (w h : Q) (r : radii) : Q := fold_left Qmin (cands w h r) 1.
 
+(* the module-level helper _overlap_ratio(width, height, top, bottom, left, right) on the four sums of radii *)
+Definition overlap_ratio (w h top bottom left right : Q) : Q :=
+  fold_left Qmin (cand w top ++ cand w bottom ++ cand h left ++ cand h right) 1.
+
 Definition scale (f : Q) (r : radii) : radii :=
   mkR (tlx r * f) (tly r * f) (trx r * f) (try_ r * f) (brx r * f) (bry r * f) (blx r * f) (bly r * f).
 
 Record rbox := mkRB { dx : Q; dy : Q; rw : Q; rh : Q; rr : radii }.
 
-(* Box.rounded_box(bt, br, bb, bl) for a border box W x H with outer radii R *)
+(* Box.rounded_box(bt, br, bb, bl) for a border box W x H with outer radii R (after /repo fe0eeda):
+     ratio = _overlap_ratio(border_width, border_height, tlrx + trrx, blrx + brrx, tlry + blry, trry + brry)
+     tlrx = max(0, tlrx * ratio - bl) ...            the outer radii are scaled against the border box first
+     ratio = _overlap_ratio(width, height, ...)      then the overlap check on the inner rectangle *)
 Definition rounded_box (W H : Q) (R : radii) (bt br bb bl : Q) : rbox :=
-  let r := inner_raw R bt br bb bl in
+  let r := inner_raw (scale (ratio W H R) R) bt br bb bl in
   let w := W - bl - br in
   let h := H - bt - bb in
   mkRB bl bt w h (scale (ratio w h r) r).
